@@ -265,7 +265,7 @@ def _mk(c, key='q'):
 
 
 def _mid0(seq, s):
-    """elements for which the sequence has three different axes and the second Euler angle is (numerically) zero: KF-C12-1"""
+    """elements for which the sequence has three different axes and the second Euler angle is (numerically) zero (the input class of the repaired defect 09a2fb1; kept as regression cases, op as_euler_mid0)"""
     if seq[0].lower() == seq[2].lower():
         return np.zeros(len(np.atleast_2d(s.as_quat())), dtype=bool)
     e = np.atleast_2d(s.as_euler(smap(seq)))
@@ -289,8 +289,6 @@ def impl_scipy(c):
             back = r.as_euler(c['seq'], degrees=c['degrees'])
             sb = s.as_euler(smap(c['seq']), degrees=c['degrees'])
             r2 = M().from_euler(c['seq'], back, degrees=c['degrees'])
-            if _mid0(c['seq'], s).any():
-                return out      # known finding KF-C12-1 (exercised by op 'as_euler_mid0' only)
             add('from_euler(as_euler) round trip', mat(r2), mat(r), 2e-6)     # as_euler: 1e-7 gimbal threshold, and the +-2pi wrap is added in float32 (1.7e-7)
             add('as_euler angles represent the scipy rotation', S().from_euler(smap(c['seq']), back.numpy(), degrees=c['degrees']).as_matrix(), s.as_matrix(), 2e-6)
             if not c['gimbal']:
@@ -343,12 +341,6 @@ def impl_scipy(c):
         e = r.as_euler(c['seq'], degrees=c['degrees'])
         add('from_euler(as_euler) round trip (second angle 0, three different axes)', mat(M().from_euler(c['seq'], e, degrees=c['degrees'])), mat(r), 2e-6)
     elif op == 'as_euler':
-        keep = ~_mid0(c['seq'], s)
-        if not keep.all():
-            q = np.atleast_2d(np.array(c['q'], dtype=float))[keep]
-            if len(q) == 0:
-                return out
-            r, s = M().from_quat(t64(q)), S().from_quat(q)
         e = r.as_euler(c['seq'], degrees=c['degrees'])
         add('from_euler(as_euler) round trip', mat(M().from_euler(c['seq'], e, degrees=c['degrees'])), mat(r), 2e-6)
         add('as_euler angles represent the scipy rotation', S().from_euler(smap(c['seq']), e.numpy(), degrees=c['degrees']).as_matrix(), s.as_matrix(), 2e-6)
